@@ -81,7 +81,9 @@ def gen_task(rng, lay, uid, simple=False, allow_app_slots=True):
 
     r = rng.random()
     if r < 0.15:
-        t['tags'] = {'colocate': rng.choice(['a', 'b'])}
+        # tag values are application data: strings, but also numbers (0 is a
+        # perfectly good tag) or an empty string
+        t['tags'] = {'colocate': rng.choice(['a', 'b', 'a', 'b', 0, 1, ''])}
         if rng.random() < 0.4:
             t['tags']['exclusive'] = True
     elif r < 0.22:
